@@ -33,6 +33,11 @@ func init() {
 	})
 }
 
+var c02KeptWhen = []string{
+	"true <= !(param:cs.clusterLiveness == nil) ; (0 < param:member.ExpiryTime) ; (interfaces.ClusterLivenessI).IsPartOfCluster(param:cs.clusterLiveness, param:member.InstanceID)",
+	"true <= (0 < param:member.ExpiryTime) ; (param:cs.clusterLiveness == nil)",
+}
+
 func runC02(w *World, r *Report) {
 	hrConcurrentAllowed(w, r, "R6")
 	hrNotFoundOnlyWhenAbsent(w, r, "R6")
@@ -492,20 +497,17 @@ func c02Expiry(w *World, r *Report) {
 				continue
 			}
 			if b {
-				op, _ := FindRel(relsOfConds(alt.Conds), pathRe(`^param:member\.ExpiryTime$`), func(v ssa.Value) bool { return isIntConst(v, 0) })
-				inCl := false
-				for _, c := range alt.Conds {
-					if ph, ok := c.V.(*ssa.Phi); ok && c.Pol && strings.Contains(Path(ph), "IsPartOfCluster(") {
-						inCl = true
-					}
-				}
-				r.Check(op == ">" && inCl, "R7", "validateMemberIntegrity/kept-only-if-alive", posOf(alt.Ret), "a member is kept only when ExpiryTime %q 0 and its instance is in the cluster=%v", op, inCl)
+				continue // decided below as a table
 			} else {
 				ok := len(srem) == 1 && del != nil && domInstr(srem[0], alt.Ret) && domInstr(del, alt.Ret) &&
 					Path(srem[0].Common().Args[0]) == "param:cs.concurrentSetKey" && Path(srem[0].Common().Args[1]) == "param:member.Key"
 				r.Check(ok, "R7", "validateMemberIntegrity/expired-removed", posOf(alt.Ret), "an invalid member is removed from the set (SRem(cs.concurrentSetKey, member.Key)) and from allowedReq before returning false")
 			}
 		}
+		// a member is kept exactly when its expiry time is positive and its instance is in the
+		// cluster (or there is no liveness service to ask): compared as a boolean function, so an
+		// if ladder, a switch or a flag local give the same answer
+		checkDecisionFor(r, "R7", "validateMemberIntegrity/kept-only-if-alive", vm, 0, "true", c02KeptWhen)
 	}
 	if gm := w.Fn(pkgQuota, "concurrentStrategy.generateMember"); gm != nil {
 		for _, alt := range ReturnAlts(gm, 0) {
